@@ -275,7 +275,7 @@ class Adversary(object):
             raise ValueError(name)
 
 
-def run_script(victim, pre_ch, pre_init, sess, nown=1, seed=0, early=0):
+def run_script(victim, pre_ch, pre_init, sess, nown=1, seed=0, early=0, xfer_mru=2 ** 40):
     cfg_v = EndCfg('dtn://victim/', seg_mru=64, seg_init=3)
     cfg_o = EndCfg('dtn://peer/')
     world = World(cfg_v if victim == 'A' else cfg_o, cfg_v if victim == 'P' else cfg_o, auto_deliver=False,
@@ -296,7 +296,8 @@ def run_script(victim, pre_ch, pre_init, sess, nown=1, seed=0, early=0):
     for name in pre_init:
         adv.move(name)
         adv.settle()
-    adv.send(codec.enc_sess_init(keepalive=0, seg_mru=2, xfer_mru=2 ** 40, node_id='dtn://peer/'))
+    # (a peer may announce a Transfer MRU smaller than what the victim's user then queues)
+    adv.send(codec.enc_sess_init(keepalive=0, seg_mru=2, xfer_mru=xfer_mru, node_id='dtn://peer/'))
     adv.settle()
     for k in range(nown):
         if not world.sock[victim].closed:
@@ -346,7 +347,8 @@ def executions(tier, seed):
         nown = 1 + (i % 2)
         early = 1 + (i % 2) if 'early' in sess else (1 if (pre_init and i % 5 == 0) else 0)
         sess = tuple(m for m in sess if m != 'early')
-        traces.append(run_script(victim, pre_ch, pre_init, sess, nown=nown, seed=seed + i, early=early))
+        xmru = (2 ** 40, 2 ** 40, 5, 2 ** 64 - 1, 2 ** 40, 1)[i % 6]
+        traces.append(run_script(victim, pre_ch, pre_init, sess, nown=nown, seed=seed + i, early=early, xfer_mru=xmru))
         metas.append({'victim': victim, 'pre_ch': list(pre_ch), 'pre_init': list(pre_init), 'sess': list(sess),
-                      'own_bundles': nown, 'queued_before_session': early})
+                      'own_bundles': nown, 'queued_before_session': early, 'peer_transfer_mru': str(xmru)})
     return traces, metas
